@@ -6,6 +6,7 @@ import ClockBound.Model.Oracles
 import ClockBound.Model.OraclesD
 import ClockBound.Model.SeqlockSim
 import ClockBound.Model.DriverPoller
+import ClockBound.Model.DriverWorld
 namespace ClockBound.Driver
 open ClockBound
 
@@ -337,7 +338,9 @@ def slxLine (args impl : List String) : String :=
 
 def processLine (line : String) : String :=
   let parts := line.splitOn " => "
-  let req := (parts.headD "").trimAscii.toString.splitOn " " |>.filter (· ≠ "")
+  let req0 := (parts.headD "").trimAscii.toString.splitOn " " |>.filter (· ≠ "")
+  -- an empty answer leaves a dangling "=>" at the end of the request
+  let req := if req0.getLast? == some "=>" then req0.dropLast else req0
   let impl := ((parts.drop 1).headD "").trimAscii.toString.splitOn " " |>.filter (· ≠ "")
   match req with
   | "client" :: args => clientLine args impl
@@ -349,6 +352,7 @@ def processLine (line : String) : String :=
   | "sl" :: args => slLine args impl
   | "slx" :: args => slxLine args impl
   | "poll" :: args => (DriverP.line "poll" args impl).getD "bad-op | |"
+  | "world" :: args => (DriverW.line "world" args impl).getD "bad-op | |"
   | "drift" :: args => driftLine args (match impl with | "refused" :: _ => ["refused"] | x => x)
   | _ => "bad-op | |"
 
